@@ -282,7 +282,7 @@ const refCache = new Map()
 function evalExpr(e, env) {
   const key = M.printRef(e)
   let f = refCache.get(key)
-  if (!f) { f = M.compileRef(e); refCache.set(key, f) }
+  if (!f) { f = M.compileRef(e, true); refCache.set(key, f) }
   return f(env, {})
 }
 const Y = (v) => (v === null || v === undefined ? '' : String(v))
